@@ -1402,7 +1402,8 @@ class MultiAgentRLAlgorithm(EvolvableAlgorithm, ABC):
                 # Handle None if environment isn't vectorized
                 if env_defined_actions[agent] is None:
                     if not self.discrete_actions:
-                        nan_arr = np.empty(self.action_dims[idx])
+                        # infos may list the agents in another order than self.agent_ids
+                        nan_arr = np.empty(self.action_dims[self.agent_ids.index(agent)])
                         nan_arr[:] = np.nan
                     else:
                         nan_arr = np.array([[np.nan]])
